@@ -968,7 +968,12 @@ class Interp:
             if isinstance(fn, ast.Name) and fn.id in ("any", "all") and e.args:
                 out = []
                 for v, s2 in self.eval(e.args[0], s):
-                    out.extend(self.fork(f"{fn.id}({self.vkey(v)})", s2))
+                    ts = [self.truth(x) for x in v.items] if isinstance(v, ListV) and not v.open else [None]
+                    if all(t is not None for t in ts):
+                        # a closed list of decided values: the result is decided too
+                        out.append(((any(ts) if fn.id == "any" else all(ts)), s2))
+                    else:
+                        out.extend(self.fork(f"{fn.id}({self.vkey(v)})", s2))
                 return out
         out = []
         for v, s2 in self.eval(e, s):
